@@ -32,6 +32,7 @@ EXPLANATION = (
     "True stress/strain formulas == log(1+e), s(1+e), log(1/(1-Z)), F/(A(1-Z)). R-C16-8 (not a proof obligation, structural): "
     "the Newton inversion stress() is wired to that strain function, that derivative, the start value E*|strain| and the "
     "sign of the strain. NOT covered: convergence of the two Newton inversions (stress, delta_stress).")
+EXPLANATION += (' R-C16-8 additionally requires the magnitude returned by RambergOsgood.stress to be the unmodified Newton root. R-C16-10 (not part of the proof rules): no method of the Hooke, Ramberg-Osgood and true-stress modules writes into an argument through any alias (effect analysis incl. out=, comprehensions, helper returns).')
 ASSUMPTIONS = ["E, K, n > 0, -1 < nu < 1/2 (enforced by the constructor), positive stress argument for the derivative identity",
                "scipy.optimize.newton returns a root of func when it converges (not part of any obligation)"]
 
